@@ -21,6 +21,16 @@ def main(tier: str, seed: int) -> int:
     shards += E.random_shards(PROP, run, JUDGES, profile="full", count=run.pick(25, 300), cap=run.pick(120, 300), maxlen=4, extra={**extra, "profile_overrides": hostile, "rename": True})
     for j in range(8):
         shards.append({"prop": PROP, "judges": JUDGES, "modes": ["I", "GI", "O", "GO"], "source": "stackscen", "seed": E.seed_int(PROP, run.seed, "sc", j), "count": run.pick(40, 500), "cap": run.pick(150, 400), "maxlen": 5, "sample_at": 10**9})
+    import random as _random
+
+    from pv.gen import grammars as G
+
+    swp = list(range(G.stack_swap_size()))
+    _random.Random(E.seed_int(PROP, run.seed, "swap")).shuffle(swp)
+    if run.quick:
+        swp = swp[:800]
+    for j in range(16):
+        shards.append({"prop": PROP, "judges": JUDGES, "modes": ["I", "GI", "O", "GO"], "source": "stackswap", "indices": swp[j::16], "seed": E.seed_int(PROP, run.seed, "sw", j), "cap": 20, "maxlen": 1, "sample_at": 10**9})
     E.execute(run, shards)
     return run.finish(
         rule=(
